@@ -577,10 +577,10 @@ def strategies():
             if s.endswith("."):
                 s = s[:-1] + "1"
             # fix up components with leading zeros produced by the cut
+            s = s.ljust(max_len, "1")
             parts = s.split(".")
             parts = [p if (len(p) == 1 or p[0] != "0") else "1" + p[1:] for p in parts]
-            s = ".".join(parts)
-            return s.ljust(max_len, "1") if len(s) < max_len else s
+            return ".".join(parts)
         if kind <= 4:
             return draw(
                 st.sampled_from(
@@ -766,7 +766,7 @@ def to_primitive(v):
         return p
     if isinstance(v, PData):
         p = P.P_DATA()
-        p.presentation_data_value_list = [(c, bytes(d)) for c, d in v.pdvs]
+        p.presentation_data_value_list = [[c, bytes(d)] for c, d in v.pdvs]
         return p
     if isinstance(v, (ReleaseRQ, ReleaseRP)):
         p = P.A_RELEASE()
